@@ -415,7 +415,8 @@ _W_TEXT = ("import html, re; t = html.unescape(re.sub(r'<[^>]*>', '', "
            "re.sub(r'<span class=\"tooltip[^\"]*\"[^>]*>[^<]*</span>', '', s)))")
 _W_TOKEN = ("import html, re; t = html.unescape(re.sub(r'<[^>]*>', '\\x1f', "
             "re.sub(r'<span class=\"tooltip[^\"]*\"[^>]*>[^<]*</span>', '', s))); "
-            "assert re.search(r'(?<![\\w.+\\-])' + re.escape(%r) + r'(?![\\w.])', t), t")
+            "miss = [x for x in %r if not re.search(r'(?<![\\w.+\\-])' + re.escape(x) + r'(?![\\w.])', t)]; "
+            "assert not miss, miss")
 _W_FALLBACK = ("import sys; sys.path[:0] = ['/verif']; from bounded.c20_html import check_html; "
                "assert not check_html(s), check_html(s)[:3]")
 
@@ -639,7 +640,11 @@ class Case:
       kw = None
       if self.kw_present:
         kw = eval('dict(%s)' % ', '.join('%s=%s' % o for o in self._opts(False)), _ns(self.prelude))  # pylint: disable=eval-used
-      for kind, text, suffix in (self.present(v, kw) if self.kw_present else self.present(v)):
+      entries = list(self.present(v, kw) if self.kw_present else self.present(v))
+      # witness for tokens: all simple leaves / int keys of the value, so that it
+      # does not depend on which of two look-alikes this process rendered first.
+      tokens = sorted({t for k, t, _ in entries if k == 'token'})
+      for kind, text, suffix in entries:
         if text in leaked_texts:
           continue   # same defect as the escape failure
         if kind == 'str':
@@ -653,7 +658,7 @@ class Case:
         cid = '%s/present:%s' % (self.pgroup, suffix)
         _record(rec, cid, (self.key, kind, text), ok,
                 '%s %r is not in the text of the document (outside tooltips)' % (kind, text),
-                W(_W_TOKEN % text if kind == 'token' else
+                W(_W_TOKEN % (tokens,) if kind == 'token' else
                   _W_TEXT + '; assert %r in t or %r in t' % (text, repr(text))))
 
     # --- value unchanged.
